@@ -23,6 +23,7 @@ EXPLANATION = (
     "depth->position palette map covers every depth, palette lookups are total; (6) palette cache coherence (shared with C17): both caches written together, rebuilt after every "
     "terminal-property change."
     " Added after seed round 3: _last_row's back-step is the width of the text written last (calc_width of the Z text); `self._resized` is tested again between the walk over canvas.content() and the write / screen_buf store; (9) ACCUM - the row counter of draw_screen advances for skipped rows too; (10) KIND - in the HTML back-end everything added to / compared with the cursor column is a calc_width() result, never a character count."
+    " Round 4: the 'same canvas object as last time' shortcut of draw_screen reads screen_buf (which clear(), resize and stop reset); (11) LOOPFRESH on per-row state of the two draw_screen implementations."
 )
 NOT_DECIDED = "The effect of the escape stream on a terminal across frame histories, the erase-to-end-of-line and insert-mode equivalences, no-scroll - these need a terminal interpreter, i.e. execution."
 ASSUMPTIONS = []
